@@ -125,6 +125,7 @@ LABEL_POOLS = [
     [5, 2, 9, 0, 7, 4],
     [("i", 0), ("i", 1), ("j", 0), "z", 10, "y"],
     ["b", "a", 0, "0", (0,), -1],
+    ["", (), 0, "b", -1, (0, 0)],          # falsy labels: the empty string, the empty tuple, zero
 ]
 
 
